@@ -372,6 +372,49 @@ def gen_orphan_template(r):
     return {"cat": "history", "ops": ops, "cfg": cfg, "keys": [hexs(x) for x in keys], "template": "orphan-X"}
 
 
+def gen_snapshot_x_template(r):
+    """History shape of seed C11-e (an acknowledged expiry CHANGE is an acknowledged write): a key with deadline T gets into the SNAPSHOT while T is
+    still ahead (explicit compact, or the inline threshold `reset .. 60 ..` compacting right after the TTL write), then persist(key) / expireAt(key, later)
+    leaves only an 'X' record in the log, then the clock passes T.  Clean reopen, and every crash image cut after the 'X' record (inside the writes that
+    follow, reopened with the clock past T), must show the key with its NEW expiry: load() has to keep a snapshot entry whose own expiry has passed until
+    the log has been replayed (repair F05)."""
+    keys = K.gen_universe(r)[:5]
+    k = r.choice(keys)
+    rest = [x for x in keys if x != k] or [b"other"]
+    now = r.choice([1000, 1700000000000])
+    low = r.chance(1, 3)
+    cfg = {"maxCache": r.choice([0, 1, 2, 1000]), "maxLog": 60 if low else 10 ** 7, "inline": 1, "now": now}
+    ops = ["reset %d %d 1 %d" % (cfg["maxCache"], cfg["maxLog"], now)]
+    rd = "read - %s" % " ".join(hexs(x) for x in keys if len(x) <= 64)
+    for x in rest[:r.range(0, 2)]:
+        ops.append("set %s %s" % (hexs(x), hexs(K.gen_value(r))))
+    ttl = r.choice([1, 2, 5])
+    T = now + 1000 * ttl
+    val = b"\x5e" + r.bytes(45)                  # longer than the 60-byte threshold: with `low` the write itself triggers the compaction
+    v = r.below(3)
+    if v == 0:
+        ops.append("setttl %s %s %d" % (hexs(k), hexs(val), ttl))
+    elif v == 1:
+        ops += ["set %s %s" % (hexs(k), hexs(val)), "expireat %s %d" % (hexs(k), T)]
+        if low:
+            ops.append("compact")                   # the 'X' of the expireat is below the threshold: snapshot it explicitly
+    else:
+        ops.append("setbatchttl %d %s %s %s %s" % (ttl, hexs(k), hexs(val), hexs(rest[0]), hexs(K.gen_value(r))))
+    if not low:
+        ops.append("compact")
+    ops.append(rd)
+    if r.chance(1, 2):
+        ops.append("persist %s" % hexs(k))
+    else:
+        ops.append("expireat %s %d" % (hexs(k), T + r.choice([1, 7000, 3600000])))
+    if r.chance(1, 4):
+        ops.append("expireat %s %d" % (hexs(k), T + 7200000))                          # a second 'X'
+    ops += [rd, "now %d" % (T + r.choice([0, 1, 4000])), rd, "reopen", rd]
+    # writes after the clock has passed T: their crash images (snapshot with the old deadline + log = 'X' + a torn/complete record) are reopened past T
+    ops += ["set %s %s" % (hexs(rest[0]), hexs(b"\xa1" + r.bytes(3))), "remove %s" % hexs(rest[-1]), rd, "reopen", rd, "state"]
+    return {"cat": "history", "ops": ops, "cfg": cfg, "keys": [hexs(x) for x in keys], "template": "snapshot-then-X"}
+
+
 def run_kv(ctx, hb, env, rng, quick, stats, where_dist):
     n_hist = 60 if quick else 400
     max_images = 120 if quick else 300
@@ -388,10 +431,21 @@ def run_kv(ctx, hb, env, rng, quick, stats, where_dist):
         hist.append({"cat": "history", "ops": ops, "cfg": cfg, "keys": [hexs(k) for k in meta["keys"]]})
     for i in range(10 if quick else 120):
         hist.append(gen_orphan_template(rng.fork("orphan%d" % i)))
+    for i in range(8 if quick else 100):
+        hist.append(gen_snapshot_x_template(rng.fork("snapx%d" % i)))
+    # generic histories of C12's shape (every mutating op followed by ALL read paths, compared with the reference map across reopen: M1-style;
+    # acknowledged expiry changes are acknowledged writes), small compaction thresholds included
+    for i in range(25 if quick else 400):
+        r = rng.fork("m1h%d" % i)
+        cfg = {"maxCache": r.choice([1, 2, 1000, 0]), "maxLog": r.choice([60, 60, 200, 10 ** 7]), "inline": 1, "now": r.choice([1000, 1700000000000])}
+        ops, meta = K.gen_history(r, r.range(6, 25), cfg, read_every=True)
+        hist.append({"cat": "history", "ops": ops, "cfg": cfg, "keys": [hexs(k) for k in meta["keys"]], "template": "m1-generic"})
     res = K.lockstep(ctx, hb, hist, impl_env=env, timeout=1500)
     image_cases = []
     for c, impl, model in res:
         stats["histories"] += 1
+        if c.get("template"):
+            stats["histories_" + c["template"]] = stats.get("histories_" + c["template"], 0) + 1
         ctx.count_case("\n".join(c["ops"]), nontrivial=True)
         if c["cat"] == "expect":
             bad = ["%s: op %s `%s` -> `%s`, expected `%s`" % (c.get("tag", "witness"), i, c["ops"][int(i)][:80], K.short(impl[int(i)], 160), K.short(e, 160))
@@ -414,8 +468,8 @@ def run_kv(ctx, hb, env, rng, quick, stats, where_dist):
                                       "detail": "first differing op index %d" % i}, "ops": c["ops"], "observed": impl, "expected_by_model": model},
                           found_input=False)
             # the images below are built from the implementation's own events: the property monitor still looks for a failing input
-        if c["cat"] != "history":
-            continue
+        if c["cat"] != "history" or c.get("template") == "m1-generic":
+            continue        # (the M1-generic histories are there for the reference-map comparison across reopen; crash images come from the other families)
         # ---- images of this history
         r = rng.fork("img" + c["ops"][0] + str(len(image_cases)))
         keys = [unhex(k) for k in c["keys"]]
@@ -429,6 +483,11 @@ def run_kv(ctx, hb, env, rng, quick, stats, where_dist):
                 cont = True
             image_cases.append({"cat": "image", "ops": ops, "img": img, "now": now, "cont": cont, "keys": keys,
                                 "cfgd": {"maxCache": cfg[0], "maxLog": cfg[1], "inline": cfg[2], "now": now}, "history": c["ops"]})
+            if c.get("template"):
+                stats["images_of_" + c["template"]] = stats.get("images_of_" + c["template"], 0) + 1
+                if c["template"] == "snapshot-then-X" and img["files"][0] != "none" and any(o.startswith("now ") for o in c["ops"][:img["op_index"]]):
+                    # snapshot holds the key with the OLD deadline, the log starts with the 'X' record, the image is reopened with the clock past that deadline
+                    stats["images_snapshot_X_reopened_past_old_deadline"] = stats.get("images_snapshot_X_reopened_past_old_deadline", 0) + 1
             w = img["where"].split(" ", 2)[2] if img["where"].startswith("op ") else img["where"]
             w = " ".join(x for x in w.split() if not x.isdigit() and "/" not in x)
             where_dist[w] = where_dist.get(w, 0) + 1
